@@ -60,7 +60,7 @@ CHECKS['C04'] = dict(
         # fill_pixels: 1-D path and row path per iterator class
         'fill:1d:pixptr', 'fill:rows:pixptr', 'fill:1d:planar', 'fill:rows:planar', 'fill:1d:step', 'fill:rows:step',
         'fill:1d:bit', 'fill:rows:bit', 'fill:1d:packedptr', 'fill:rows:packedptr',
-        'for_each:1d', 'for_each:rows', 'generate:1d', 'generate:rows',
+        'for_each:1d', 'for_each:rows', 'generate:1d', 'generate:rows', 'generate_byvalue:1d', 'generate_byvalue:rows',
         # std::equal overload: four branches x equal_n_fn leaf; the memcmp leaves also observed directly through the
         # sanitizer's memcmp hook
         'equal:1d1d:memcmp', 'equal:1d2d:memcmp', 'equal:2d1d:memcmp', 'equal:2d2d:memcmp',
